@@ -45,6 +45,11 @@ def uid(rng, base):
 
 
 # ------------------------------------------------------------------------------------------------ C17
+def empty_dataset_():
+    from pydicom.dataset import Dataset
+    return Dataset()
+
+
 def run_provider(kind, rng):
     from pynetdicom2 import sopclass, dimsemessages as dm
     import pydicom
@@ -79,7 +84,15 @@ def run_provider(kind, rng):
         data = sd.encode_ds(sd.small_dataset(0))
         msg.data_set = data
         n = rng.choice([0, 1, 2, 5])
-        matches = [(sd.small_dataset(k, rng.choice([0, 100])), rng.choice([0xFF00, 0xFF01])) for k in range(n)]
+        # what the handler yields: matches with pending statuses, some of them with an empty identifier (a handler
+        # that yields a NON-pending status is outside the documented contract: the library sends it and then
+        # still closes with Success - observation O8 in DESIGN.md)
+        matches = []
+        for k in range(n):
+            if rng.random() < 0.2:
+                matches.append((empty_dataset_(), rng.choice([0xFF00, 0xFF01])))
+            else:
+                matches.append((sd.small_dataset(k, rng.choice([0, 100])), rng.choice([0xFF00, 0xFF01])))
         from pynetdicom2 import statuses
         lab.matches = [(d, statuses.Status(s, dm.CFindRSPMessage)) for d, s in matches]
         svc = sopclass.qr_find_scp if sop == FIND else sopclass.modality_work_list_scp
@@ -355,9 +368,10 @@ def get_scu_cases(rng, count, as_c17=False):
             plan.append(('store', k))
         if rng.random() < 0.5:
             plan.append(('pending',))
-        final = rng.choice([0, 0xB000, 0xA701, 0xFE00])
+        final = rng.choice([0, 0xB000, 0xA701, 0xFE00, 0xC001, 0x0122])
         plan.append(('final', final))
-        plan.append(('after',))          # must not be consumed
+        for _a in range(rng.choice([1, 1, 2])):
+            plan.append(('after',))          # must not be consumed
         store_pcs = {}
         inst_list = []
         first_rq = None
@@ -368,8 +382,7 @@ def get_scu_cases(rng, count, as_c17=False):
                 m.sop_class_uid = GET
                 m.status = 0xFF00 if step[0] != 'final' else step[1]
                 lab.incoming.append((m, 1))
-                if step[0] != 'after':
-                    msgs_terms.append('(GetRsp %d)' % (0xFF00 if step[0] == 'pending' else step[1]))
+                msgs_terms.append('(GetRsp %d)' % (step[1] if step[0] == 'final' else 0xFF00))
             else:
                 k = step[1]
                 pc = rng.choice([3, 5, 7])
@@ -409,8 +422,8 @@ def get_scu_cases(rng, count, as_c17=False):
                          handler=('EventHandlingError' if o.error else hex(o.status)), error=err,
                          responses=[dict((k, v) for k, v in r.items() if k != 'data' and v is not None) for r in rsps])
         else:
-            term = '(mkgcase %s %s %s)' % (clist(msgs_terms), clist([sd.c_rsp(r) for r in rsps]),
-                                           clist([cbytes(y.encode()) for y in yields]))
+            term = '(mkgcase %s %s %s %s %d)' % (clist(msgs_terms), clist([sd.c_rsp(r) for r in rsps]),
+                                                 clist([cbytes(y.encode()) for y in yields]), cbool(err is None), left)
             human = dict(plan=[s[0] for s in plan], n_stores=n, final=hex(final), error=err, yielded=yields,
                          responses=[(r['pc'], r['mid_resp'], r['status']) for r in rsps], unconsumed=left,
                          handler=[('err' if o.error else hex(o.status)) for o in outcomes])
